@@ -110,10 +110,16 @@ def compTypeToOrder : Nat → Option (String × String)
   | 5 => some ("SING", "Y") | 6 => some ("DOUB", "Y") | 7 => some ("TRIP", "Y") | 9 => some ("AROM", "Y")
   | _ => none
 
-/-- `CANONICAL_RESIDUE_LIST`. -/
-def canonicalResidues : List String :=
+/-- `_canonical_aa_list` (filter.py). -/
+def canonicalAA : List String :=
   ["ALA", "ARG", "ASN", "ASP", "CYS", "GLN", "GLU", "GLY", "HIS", "ILE", "LEU", "LYS", "MET", "PHE",
-   "PRO", "PYL", "SER", "THR", "TRP", "TYR", "VAL", "SEC", "A", "DA", "G", "DG", "C", "DC", "U", "DT"]
+   "PRO", "PYL", "SER", "THR", "TRP", "TYR", "VAL", "SEC"]
+
+/-- `_canonical_nucleotide_list` (filter.py). -/
+def canonicalNuc : List String := ["A", "DA", "G", "DG", "C", "DC", "U", "DT"]
+
+/-- `CANONICAL_RESIDUE_LIST`. -/
+def canonicalResidues : List String := canonicalAA ++ canonicalNuc
 
 /-- The altloc ids that mean "no altloc" in `filter.py`. -/
 def noAltloc : List String := [".", "?", " ", ""]
@@ -288,13 +294,18 @@ def inStructConn (pos : List Nat) (b : Bond) : Bool :=
 def atomAt (atoms : List Atom) (i : Nat) : Atom :=
   atoms.getD i ⟨"", 0, "", "", false, "", "", 0, 0, []⟩
 
+/-- `is_peptide_link | is_nucleotide_link` of `_filter_canonical_links` (repaired): C–N between two
+canonical amino acids or O3'–P between two canonical nucleotides. -/
+def canonKind (a1 a2 : Atom) : Bool :=
+  (canonicalAA.contains a1.resName && canonicalAA.contains a2.resName && a1.atomName == "C" && a2.atomName == "N") ||
+  (canonicalNuc.contains a1.resName && canonicalNuc.contains a2.resName && a1.atomName == "O3'" && a2.atomName == "P")
+
 /-- `_filter_canonical_links` (repaired): a backbone link between array-adjacent canonical
-residues that `connect_via_residue_names` restores on reading. -/
+residues of the same kind that `connect_via_residue_names` restores on reading. -/
 def isCanonicalLink (atoms : List Atom) (pos : List Nat) (b : Bond) : Bool :=
   let a1 := atomAt atoms b.i
   let a2 := atomAt atoms b.j
-  canonicalResidues.contains a1.resName && canonicalResidues.contains a2.resName &&
-  (a1.atomName == "C" || a1.atomName == "O3'") && (a2.atomName == "N" || a2.atomName == "P") &&
+  canonKind a1 a2 &&
   ((pos.getD b.j 0 : Int) - (pos.getD b.i 0 : Int) == 1) &&
   b.t == btSingle && a1.chain == a2.chain && decide (a2.resId - a1.resId ≤ 1)
 
@@ -382,6 +393,17 @@ def splitModelsAux : List Int → List SiteRow → List SiteRow → List (List S
     else cur.reverse :: splitModelsAux (r.model :: seen) [r] rs
 
 def splitModels (site : List SiteRow) : List (List SiteRow) := splitModelsAux [] [] site
+
+/-- The model numbers in the order of their first appearance. -/
+def modelNumbers (site : List SiteRow) : List Int :=
+  (splitModels site).map (fun g => match g.head? with | some r => r.model | none => 0)
+
+/-- `_filter_model` (repaired): the rows that carry the k-th model number (0-based `k`), wherever
+they are in the table. -/
+def selectModel (site : List SiteRow) (k : Nat) : List SiteRow :=
+  match (modelNumbers site)[k]? with
+  | some v => site.filter (fun r => r.model == v)
+  | none => []
 
 /-- `_fill_annotations` for one row (`extra_fields` = charge / atom_id requested or not). -/
 def readRow (wantCharge wantAtomId : Bool) (r : SiteRow) : Atom :=
@@ -603,15 +625,17 @@ def readStructure (ccd : Ccd) (b : Block) (o : ReadOpts) : Except Err Structure 
   let groups := splitModels b.site
   let (rows, coords) ← match o.model with
     | none => do
-      let first := groups.headD []
-      -- repaired: every model (not only the total) must have the length of the first one
-      if groups.any (fun g => g.length != first.length) then throw Err.invalidFile
+      let first := selectModel b.site 0
+      -- repaired: every model (not only the total) must have the length of the first one,
+      -- and the rows of each model must be contiguous
+      if groups.any (fun g => g.length != first.length) ||
+         groups.any (fun g => g.any (fun r => some r.model != g.head?.map (·.model))) then throw Err.invalidFile
       pure (first, chunks first.length count (b.site.map (·.xyz)))
     | some m => do
       if m == 0 then throw Err.valueError
       let m' : Int := if m < 0 then (count : Int) + m + 1 else m
       if m' > count || m' < 1 then throw Err.valueError
-      let g := groups.getD (m'.toNat - 1) []
+      let g := selectModel b.site (m'.toNat - 1)
       pure (g, [g.map (·.xyz)])
   let atoms := rows.map (readRow o.wantCharge o.wantAtomId)
   let bonds ← if o.includeBonds then do
